@@ -12,3 +12,9 @@ package extractsev
 //@   assigns nothing
 //@   ensures[C16] result == sevObjectName(sevPrefix(familyID), val(measurement))
 //@   ensures[C16] sevPrefix(familyID) == "ovmf_x64_csm" || sevPrefix(familyID) == "unknown"
+
+// C16 (byte-for-byte): the certificate-table entry is returned exactly as stored in the attestation, untouched.
+//@ func FromAttestation
+//@   assigns nothing
+//@   sweep[C07]
+//@   ensures[C16] err == nil ==> at != nil && at.CertificateChain != nil && has(at.CertificateChain.Extras, "9f4116cd-c503-4f5a-8f6f-fb68882f4ce2") && same(result0, at.CertificateChain.Extras["9f4116cd-c503-4f5a-8f6f-fb68882f4ce2"])
